@@ -47,13 +47,45 @@ def known_class(root):
     """Finding classes as predicates over the shape (all concrete per explored path)."""
     for n in S.nodes_of(root):
         if n.kind in ('SAGG', 'SSCAN'):
-            body = n.ops[1]
-            outer_eval = set(body.fv) - set(n.names)
-            if outer_eval and n.kind == 'SAGG':
-                return 'cse-streamagg-eval-freevar-dropped'
-            if n.kind == 'SSCAN' and outer_eval:
-                return 'cse-streamaggscan-eval-freevar-dropped'
+            outer_eval = eval_names(n.ops[1]) - set(n.names)
+            if outer_eval:
+                return ('cse-streamagg-body-eval-freevars-dropped' if n.kind == 'SAGG' else
+                        'cse-streamaggscan-body-eval-freevars-dropped')
     return None
+
+
+def eval_names(n):
+    """Names (bound variables and free leaves, not constants) referenced in eval position inside `n`."""
+    if isinstance(n, S.Var):
+        return {n.name}
+    if isinstance(n, S.Leaf):
+        return set() if n.name in ('c', 'd') else {n.name}
+    out = set()
+    for i, o in enumerate(n.ops):
+        if n.kind in ('SUM', 'SCAN', 'AGGF', 'SCANF') and i == 0:
+            continue
+        r = eval_names(o)
+        if n.kind in ('SAGG', 'SSCAN') and i == 1:
+            # what the inner aggregation's seq args use is an eval use of the enclosing scope
+            r = (r | seq_names(o)) - set(n.names)
+        elif n.names and i == len(n.ops) - 1:
+            r = r - set(n.names)
+        out |= r
+    return out
+
+
+def seq_names(n):
+    if not isinstance(n, S.Node):
+        return set()
+    out = set()
+    for i, o in enumerate(n.ops):
+        if n.kind in ('SUM', 'SCAN', 'AGGF', 'SCANF') and i == 0:
+            out |= eval_names(o)
+        elif n.kind in ('SAGG', 'SSCAN') and i == 1:
+            continue
+        else:
+            out |= seq_names(o)
+    return out
 
 
 def analyse(root, env, strict):
@@ -61,7 +93,11 @@ def analyse(root, env, strict):
     Returns dict(kind=..., differs=z3 Bool or True, ...)."""
     x = S.to_ir(root)
     plain = PlainRenderer()(x)
-    cse = CSERenderer()(x)
+    try:
+        cse = CSERenderer()(x)
+    except Exception as e:     # the real renderer raised on a well-formed program
+        return {'plain': plain, 'cse': f'<{type(e).__name__}: {e}>', 'lets': False, 'kind': 'crash', 'differs': True,
+                'why': f'CSERenderer raised {type(e).__name__}: {e}'}
     out = {'plain': plain, 'cse': cse, 'lets': cse.count('__cse_') > 0}
     try:
         tp = irsem.read(plain)
